@@ -14,6 +14,15 @@ M2  Dist_Dump(q).cfg: TLC prints every case with the masked component pmfs and t
     the masked component pmfs, sampled actions are looked up in the support, stored actions inside learn() are observed
     through a spy on actor.action_log_prob.  Squashed actors: log_prob = Normal(atanh a) - sum log(1 - a^2 + 1e-6) with
     the Normal part from the specification's rational quadratic form.
+    Varied along the replay (audit of the quantifier's dimensions): the batch size of every call (1 .. 32; PPO and IPPO also
+    with un-batched observations of a non-vectorised environment), the container / dtype of the mask (None, int64 / int8 / bool /
+    float32 arrays, the object array of per-environment masks of gymnasium's vector environments, torch bool / integer tensors;
+    IPPO: arrays of these dtypes or lists inside the info dictionaries), training / evaluation mode, the key order of every
+    dictionary handed to IPPO (observations, infos, the eight components of the experience tuple), a heterogeneous IPPO
+    population (level IPPO-hetero: a second policy group with another action space and without masks, its member interleaved in
+    agent_ids), the layout of the roll-out given to learn() (vectorised (T, E) and the non-vectorised layout of the training
+    loops; minibatches of 64 / 6 / 7 rows; one or two epochs), fresh policies / policies as the last mutation of a
+    clone-and-mutate history left them / the clone taken right after that mutation, MultiDiscrete components with a single outcome.
 M3  real, unstubbed networks of every family (with and without squash_output; PPO and IPPO with unit and non-unit
     bounds): get_action / evaluate_actions / learn sequences recorded (one event per row: ids of weights fingerprint,
     observation, action, reported value) and validated by TLC against Dist_Trace (memo: EvalIsFunctionOfArgument).
@@ -22,6 +31,7 @@ from __future__ import annotations
 
 import collections
 import json
+import time
 
 from .. import tlc
 from ..core import Vacuous
@@ -39,7 +49,7 @@ INVARIANT EvalIsFunctionOfArgument
 CHECK_DEADLOCK FALSE
 """
 
-HIST_KEYS = [("disc", (3,)), ("disc", (2,)), ("multi", (2, 3)), ("multi", (3,)), ("multi", (2, 2, 2)), ("bits", (3,)), ("bits", (1,)),
+HIST_KEYS = [("disc", (3,)), ("disc", (2,)), ("multi", (2, 3)), ("multi", (3,)), ("multi", (2, 2, 2)), ("multi", (1, 2)), ("bits", (3,)), ("bits", (1,)),
              ("box", (1,)), ("box", (2,)), ("box", (3,))]
 
 
@@ -98,22 +108,38 @@ def run(ctx):
         by[dist.shape_key(c)].append(c)
     stats = collections.Counter()
     fails = []
+    walls = collections.Counter()
     for key, cs in sorted(by.items()):
-        kernels = ([dist.BoxKernel(key[1][0], ctx.seed, squash=False), dist.BoxKernel(key[1][0], ctx.seed, squash=True)]
-                   if key[0] == "box" else [dist.DiscKernel(key, ctx.seed)])
-        # the same policies after a clone-and-mutate history (latent / head / encoder mutations through the HPO code)
-        kernels += ([dist.BoxKernel(key[1][0], ctx.seed, squash=False, evolved=True), dist.BoxKernel(key[1][0], ctx.seed, squash=True, evolved=True)]
-                    if key[0] == "box" else [dist.DiscKernel(key, ctx.seed, evolved=True)])
-        for k in kernels:
-            kcs = cs[(ctx.seed % 3)::3] if (k.evolved and quick) else cs
-            for level in ("actor", "ppo", "ippo"):
-                getattr(k, "run_" + level)(kcs)
-                for c in kcs:
-                    ctx.case(_case_key(level, k.shape, c), nontrivial=_nontrivial(c))
-            stats.update(k.stats)
-            fails += k.fails
-            for s in getattr(k, "samples", [])[:1]:
-                ctx.sample(s)
+        def make(ev):
+            return ([dist.BoxKernel(key[1][0], ctx.seed, squash=False, evolved=ev), dist.BoxKernel(key[1][0], ctx.seed, squash=True, evolved=ev)]
+                    if key[0] == "box" else [dist.DiscKernel(key, ctx.seed, evolved=ev)])
+        # fresh policies; the same policies after a clone-and-mutate history (latent / head / encoder mutations through the HPO code)
+        # as the last mutation left them (True) and as the clone taken right after it ("cloned")
+        for ev in (False, True, "cloned"):
+            for k in make(ev):
+                kcs = cs
+                if ev and quick:
+                    kcs = cs[(ctx.seed % 3)::3] if ev is True else cs[((ctx.seed + 1) % 6)::6]
+                for level in ("actor", "ppo", "ippo", "ippo-hetero"):
+                    lcs = kcs
+                    t0 = time.time()
+                    if level == "ippo-hetero":
+                        # a second policy group with another action space, members interleaved in agent_ids
+                        if quick and ev:
+                            continue
+                        if quick:
+                            lcs = kcs[(ctx.seed % 4)::4]
+                        k.run_ippo(lcs, hetero=True)
+                    else:
+                        getattr(k, "run_" + level)(lcs)
+                    walls[level] += time.time() - t0
+                    for c in lcs:
+                        ctx.case(_case_key(level, k.shape, c), nontrivial=_nontrivial(c))
+                stats.update(k.stats)
+                fails += k.fails
+                for s in getattr(k, "samples", [])[:1]:
+                    ctx.sample(s)
+    ctx.extra["kernel_wall_s"] = {k: round(v, 1) for k, v in walls.items()}
     ctx.extra["kernel_replay"] = dict(stats)
     ctx.extra["ppo_share_encoders"] = dist.INFO.get("ppo_share_encoders")
     if stats["rows"] < 10000:
@@ -150,6 +176,11 @@ def run(ctx):
                "(k ln 2); -Q - K ln 2 - (d/2) ln 2pi and -sum p ln p are evaluated by the harness in float64 from the specification's integers")
     ctx.assume("every component keeps at least one legal outcome (an all-masked component has no distribution); probabilities are >= 1/8 and "
                "logits are of ordinary magnitude (the -1e8 mask fill against logits below -1e8 is C14's known finding)")
+    ctx.assume("masks are handed over as ArrayOrTensor (the declared type) resp., inside IPPO's info dictionaries, as numpy arrays or lists; "
+               "a plain Python list passed directly to the actor / PPO.get_action and torch tensors inside info dictionaries are outside "
+               "the declared interface and not exercised")
+    ctx.assume("IPPO's env_defined_actions / agent masks replace the sampled action by design (the reported log-probability then belongs to "
+               "the discarded sample): not exercised")
     ctx.assume("evaluate_actions / learn() take no mask: stored actions are re-evaluated under the unmasked policy, which is what is demanded there "
                "(cases with an all-ones mask); masked re-evaluation is demanded of actor(obs, mask) + actor.action_log_prob only")
     ctx.assume("the numeric value of the tanh-squashed density is not demanded beyond the code's own definition Normal(atanh a) - sum log(1-a^2+1e-6) "
@@ -158,7 +189,7 @@ def run(ctx):
     ctx.assume("Box bounds of un-squashed policies are +-64 so that evaluation-mode clipping never changes a returned action (clipped actions: C14)")
     ctx.assume("history traces: values are identified up to 1e-5 (squashed: 1e-4) relative; squashed rows with |a| > 0.95 are not recorded "
                "(atanh ill conditioned in float32); weights are identified by SHA-256 of the actor's state_dict")
-    rule = ("case = (level actor/PPO/IPPO, action-space shape, component pmfs, mask) resp. (mu, log2 std, eps) from TLC's dump -- non-trivial = "
+    rule = ("case = (level actor/PPO/IPPO/IPPO-hetero, action-space shape, component pmfs, mask) resp. (mu, log2 std, eps) from TLC's dump -- non-trivial = "
             "masked, several components or Box; plus one case per history trace (level, shape, squash/bounds, seed, batch size, policy)")
     return "model_checking", rule, False
 
@@ -191,8 +222,13 @@ def replay(path):
         lo = max(0, min(i - 30, len(same) - 61))
         cs = same[lo:lo + 61]
         ev = "+evolved" in rp["shape"]
+        if ev and rp.get("evolve") == "cloned":
+            ev = "cloned"
         k = dist.BoxKernel(key[1][0], seed, squash="+squash" in rp["shape"], evolved=ev) if key[0] == "box" else dist.DiscKernel(key, seed, evolved=ev)
-        getattr(k, "run_" + rp["level"].lower())(cs)
+        if rp["level"] == "IPPO-hetero":
+            k.run_ippo(cs, hetero=True)
+        else:
+            getattr(k, "run_" + rp["level"].lower())(cs)
         print(f"case: {_brief(c)}   (replayed with {len(cs) - 1} neighbouring cases of TLC's grid)")
         mine = [f for f in k.fails if _brief(f.case) == _brief(c)]
         hits = [f for f in mine if f.signature == d["signature"]] or [f for f in k.fails if f.signature == d["signature"]]
